@@ -362,6 +362,8 @@ def mk_wcs(s):
         w.bounding_box = tuple(tuple(b) for b in s["bbox"]) if len(s["bbox"]) > 1 else tuple(s["bbox"][0])
     if s.get("pixel_shape"):
         w.pixel_shape = tuple(s["pixel_shape"])
+    if s.get("array_shape"):
+        w.array_shape = tuple(s["array_shape"])      # (the route that works when the input frame is only a name)
     return w
 
 
@@ -383,10 +385,20 @@ def wcs_obs(w, s):
         out["bbox"] = "err:" + C.exc_enum(e)
     fw, bw, pairs = [], [], []
     names = [st.frame if isinstance(st.frame, str) else st.frame.name for st in w.pipeline]
-    for p in pts:
+    try:
+        w.forward_transform.inverse
+        analytic = True
+    except Exception:
+        analytic = False
+    for ip, p in enumerate(pts):
         try:
             r = w(*p)
             fw.append(_num(r))
+            if ip == 3 and not analytic:
+                # far outside any field the iterative inverse need not converge, and where it does not its answer hangs on the last bit
+                # of the parameters: not a statement about the round trip
+                bw.append("iterative inverse, far point: not compared")
+                continue
             try:
                 bw.append(_num(w.invert(*(r if isinstance(r, tuple) else (r,)))))
             except Exception as e:
@@ -861,6 +873,8 @@ def gen_wcs(rng):
         s["bbox"] = [[float(rng.randint(-5, 0)) - 0.5, float(rng.randint(8, 30)) + 0.5] for _ in range(n)]
     if rng.random() < 0.5 and not isinstance(first, str):   # the pixel_shape setter needs an input frame object
         s["pixel_shape"] = [rng.randint(8, 64) for _ in range(n)]
+    elif isinstance(first, str) and rng.random() < 0.6:
+        s["array_shape"] = [rng.randint(8, 64) for _ in range(n)]
     return s
 
 
